@@ -4,6 +4,7 @@ import (
 	"encoding/json"
 	"math"
 	"math/rand"
+	"strings"
 	"time"
 
 	"github.com/spali/go-rscp/rscp"
@@ -164,6 +165,16 @@ func (g *gen) value(dt rscp.DataType, depth int, budget *int) interface{} {
 		}
 		return math.Float64frombits(g.r.Uint64())
 	case rscp.CString:
+		if g.chance(0.25) {
+			// text: multi-byte UTF-8 (2, 3 and 4 byte sequences), NUL at either end, combining marks
+			parts := []string{"ä", "ö", "€", "😀", "日本", "e\u0301", "\x00", "Ω", "ß", "\u2028", "a", "Z", " ", "\t"}
+			var sb strings.Builder
+			for k := 0; k <= g.pick(6); k++ {
+				sb.WriteString(parts[g.pick(len(parts))])
+			}
+			*budget -= sb.Len()
+			return sb.String()
+		}
 		n := g.smallLen()
 		*budget -= n
 		return string(g.bytes(n))
@@ -230,6 +241,17 @@ type namedMsgs []rscp.Message
 type namedBool bool
 type namedU8 uint8
 type namedI32 int32
+
+// values that refer to themselves (legal Go values of an interface{} field): formatting them with %v never ends
+func selfReferential() []interface{} {
+	m := map[string]interface{}{}
+	m["self"] = m
+	sl := make([]interface{}, 1)
+	sl[0] = sl
+	msg := &rscp.Message{Tag: 1, DataType: rscp.None}
+	msg.Value = msg
+	return []interface{}{m, sl, msg}
+}
 
 var namedValues = []interface{}{json.Number("12"), json.RawMessage("1"), namedString("x"), namedString(""), namedBytes{1, 2}, namedBytes(nil),
 	namedMsgs{}, namedMsgs(nil), namedBool(true), namedU8(1), namedI32(1), time.Duration(5), rscp.AuthLevel(1)}
